@@ -219,7 +219,11 @@ func (g *DocGen) paramSchema() S {
 	case 0, 1:
 		return g.Schema(0)
 	case 2:
-		return S{"type": "array", "items": g.Schema(0)}
+		a := S{"type": "array", "items": g.Schema(0)}
+		if g.Unusual && g.p(0.4) {
+			a["default"] = Arr() // a default that is an empty list
+		}
+		return a
 	case 3:
 		return S{"type": "object", "properties": S{"a": g.Schema(0), "b": g.Schema(0)}}
 	case 4:
@@ -237,6 +241,9 @@ func (g *DocGen) Parameter(in, name string) S {
 	}
 	if g.Unusual && g.p(0.15) {
 		p["content"] = S{"application/json": S{"schema": g.Schema(1)}}
+		if g.p(0.2) {
+			p["content"] = S{"application/json": S{}} // a media type without a schema is legal
+		}
 		return p
 	}
 	p["schema"] = g.paramSchema()
@@ -341,6 +348,9 @@ func (g *DocGen) Doc() S {
 	paths := S{}
 	np := 1 + g.R.Intn(4)
 	tmpls := []string{"/items", "/items/{id}", "/items/{id}/sub/{sid}", "/u/{name}.json", "/files/{p}/raw", "/a/b/c", "/{top}", "/q"}
+	if g.Unusual && g.p(0.3) {
+		tmpls[4] = "/files/{p*}/raw" // a variable name with the legacy router's "rest of the path" mark, in the middle of a template
+	}
 	g.R.Shuffle(len(tmpls), func(i, j int) { tmpls[i], tmpls[j] = tmpls[j], tmpls[i] })
 	opN := 0
 	for i := 0; i < np; i++ {
@@ -403,6 +413,12 @@ func (g *DocGen) Doc() S {
 					}
 					ps = append(ps, g.Parameter(in, name))
 				}
+			}
+			if g.Unusual && g.p(0.25) {
+				// a list parameter whose default is the empty list, followed by an object parameter in the default (exploded form)
+				// style, which is read from all the query keys there are
+				ps = append(ps, S{"name": "labels", "in": "query", "schema": S{"type": "array", "items": S{"type": "string"}, "default": Arr()}},
+					S{"name": "filter", "in": "query", "schema": S{"type": "object", "properties": S{"color": S{"type": "string"}, "size": S{"type": "integer"}}}})
 			}
 			if len(ps) > 0 {
 				op["parameters"] = ps
